@@ -7,9 +7,35 @@
  */
 #include "vk.h"
 #include <string.h>
+/* O4: option parsing in main(): getopt_long_only is a scripted stub delivering up to three options (codes and argument
+ * strings symbolic), atof/atoi are uninterpreted per argument string (each argument has its own arbitrary double / int
+ * value) - so "the number the user wrote" reaches kalign_run iff main converts the right argument with the right function */
+#include <stdlib.h>
+#include <unistd.h>
+#include <getopt.h>
+static int vk_codes[4]; static int vk_pos = 0; static char vk_arg[3][4]; static double vk_dval[3]; static int vk_ival[3];
+static int vk_getopt(int argc, char *const argv[], const char *s, const struct option *lo, int *idx)
+{
+        (void)argv; (void)s; (void)lo; (void)idx;
+        if (vk_pos >= 3 || vk_codes[vk_pos] == -1) { optind = 1; return -1; }   /* argv[1] is the first non-option */
+        optarg = vk_arg[vk_pos];
+        return vk_codes[vk_pos++];
+}
+static int vk_argidx(const char *p) { return p == vk_arg[0] ? 0 : p == vk_arg[1] ? 1 : p == vk_arg[2] ? 2 : -1; }
+static double vk_atof(const char *p) { int k = vk_argidx(p); __CPROVER_assert(k >= 0, "atof on an option argument"); return k >= 0 ? vk_dval[k] : 0.0; }
+static int vk_atoi(const char *p) { int k = vk_argidx(p); __CPROVER_assert(k >= 0, "atoi on an option argument"); return k >= 0 ? vk_ival[k] : 0; }
+static int vk_isatty(int fd) { (void)fd; return 1; }
+#define getopt_long_only vk_getopt
+#define atof vk_atof
+#define atoi vk_atoi
+#define isatty vk_isatty
 #define main kalign_cli_main
 #include "run_kalign.c"
 #undef main
+#undef getopt_long_only
+#undef atof
+#undef atoi
+#undef isatty
 #include "parameters.c"
 
 #ifndef STRLEN
@@ -107,6 +133,37 @@ VK_MAIN()
         VK_ASSERT(n_free == 1, "C16: the msa is released exactly once");
         p->num_infiles = 0; /* infile is not heap memory in this harness */
         free_parameters(p);
+#elif defined(OB_O4)
+        /* up to three options out of --gpo --gpe --tgpe --type -n, then one input file */
+        int given[3] = {-1, -1, -1};    /* index of the last argument given for gpo / gpe / tgpe */
+        int nth = -1, typ = -1;
+        for (int k = 0; k < 3; k++) {
+                int c = vin.i[k];
+                VK_ASSUME(c == -1 || c == OPT_GPO || c == OPT_GPE || c == OPT_TGPE || c == 'n' || c == OPT_ALN_TYPE);
+                if (k > 0 && vk_codes[k - 1] == -1) VK_ASSUME(c == -1);
+                vk_codes[k] = c;
+                vk_dval[k] = (double)vin.f[k]; vk_ival[k] = vin.i[3 + k];
+                VK_ASSUME(vin.f[k] == vin.f[k] && vin.f[k] > -1.0e30f && vin.f[k] < 1.0e30f);
+                vk_arg[k][0] = 'd'; vk_arg[k][1] = 'n'; vk_arg[k][2] = 'a'; vk_arg[k][3] = 0;   /* "dna" when used as --type */
+                if (c == OPT_GPO) given[0] = k; if (c == OPT_GPE) given[1] = k; if (c == OPT_TGPE) given[2] = k;
+                if (c == 'n') nth = k; if (c == OPT_ALN_TYPE) typ = k;
+        }
+        vk_codes[3] = -1;
+        char *argv[3] = {"kalign", "in.fa", NULL};
+        optind = 1;
+        fail_read_at = 0; fail_run = 0; fail_write = 0;
+        int rc = kalign_cli_main(2, argv);
+        if (nth >= 0 && vk_ival[nth] < 1) {
+                VK_ASSERT(rc == EXIT_FAILURE && n_run == 0, "C05: a thread count below 1 is rejected");
+        } else {
+                VK_ASSERT(rc == EXIT_SUCCESS && n_run == 1, "C09: one alignment run");
+                VK_ASSERT(run_gpo == (given[0] >= 0 ? (float)vk_dval[given[0]] : -1.0f), "C09: --gpo reaches kalign_run as the number the user wrote (else 'not given')");
+                VK_ASSERT(run_gpe == (given[1] >= 0 ? (float)vk_dval[given[1]] : -1.0f), "C09: --gpe reaches kalign_run as the number the user wrote (else 'not given')");
+                VK_ASSERT(run_tgpe == (given[2] >= 0 ? (float)vk_dval[given[2]] : -1.0f), "C09: --tgpe reaches kalign_run as the number the user wrote (else 'not given')");
+                VK_ASSERT(run_threads == (nth >= 0 ? vk_ival[nth] : 4), "C09: -n reaches kalign_run (default 4)");
+                VK_ASSERT(run_type == (typ >= 0 ? KALIGN_TYPE_DNA : KALIGN_TYPE_UNDEFINED), "C09: --type word reaches kalign_run as its constant");
+                VK_ASSERT(n_read == 1 && read_names[0] == argv[1], "C04: the positional file is read");
+        }
 #endif
         VK_END();
 }
